@@ -104,6 +104,7 @@ def run(ctx, prop=PROP):
         code, st = g.program(ctx.rng.choice([3, 5, 8, 12, 16]))
         progs.append((code, st, gen_env(ctx.rng)))
     progs += edge_programs(g, ctx.rng, ctx.tier)
+    progs += boundary_programs(ctx.rng)
     lines = []
     for code, st, env in progs:
         line = f'{FUEL} | {env_words(env)} | {mich.to_line(code)}'
@@ -326,6 +327,33 @@ def edge_programs(g, rng, tier):
         progs.append(([P('UNIT'), P('UNIT'), P('UPDATE', I(n))], None))
         progs.append(([P('UNIT'), P('UNPAIR', I(n + 1))], None))
     return [(code, st, gen_env(rng)) for code, st in progs if gen_interp.well_typed_edge(code) is False]
+
+
+def boundary_programs(rng):
+    """well-typed programs exactly at and just beyond the bounds where Michelson defines a *runtime failure* (the reference
+    outcome `rtfail`): 63-bit mutez results of ADD / MUL / SUB / SUB_MUTEZ / EDIV, shifts by 256 / 257 bits — run in every tier"""
+    P = lambda prim, *args: {'prim': prim, 'args': list(args)} if args else {'prim': prim}
+    I = lambda n: {'int': str(n)}
+    tz = lambda n: P('PUSH', P('mutez'), I(n))
+    nat = lambda n: P('PUSH', P('nat'), I(n))
+    M = 2 ** 63
+    progs = []
+    for a, b in [(M - 1, 0), (M - 2, 1), (M - 1, 1), (M // 2, M // 2), (M // 2, M // 2 - 1), (M - 1, M - 1), (1, 0)]:
+        progs.append(([tz(a), tz(b), P('ADD')], [('mutez',)]))
+        progs.append(([tz(b), tz(a), P('SUB')], [('mutez',)]))           # a - b
+        progs.append(([tz(a), tz(b), P('SUB')], [('mutez',)]))           # b - a: underflow unless equal
+        progs.append(([tz(a), tz(b), P('SUB_MUTEZ')], [('option', ('mutez',))]))
+    for a, n in [(M - 1, 1), (M // 2, 2), (M // 2 - 1, 2), (M // 2, 1), (1, M), (1, M - 1), (M - 1, 2), (0, 2 ** 70), (3, (M - 1) // 3), (3, (M - 1) // 3 + 1)]:
+        progs.append(([nat(n), tz(a), P('MUL')], [('mutez',)]))
+        progs.append(([tz(a), nat(n), P('MUL')], [('mutez',)]))
+    for a, n in [(M - 1, 1), (M - 1, M - 1), (M - 1, 0), (7, 2)]:
+        progs.append(([nat(n), tz(a), P('EDIV')], [('option', ('pair', ('mutez',), ('mutez',)))]))
+        progs.append(([tz(n), tz(a), P('EDIV')], [('option', ('pair', ('nat',), ('mutez',)))]))
+    for x in (0, 1, 2 ** 200 + 5):
+        for n in (0, 1, 255, 256, 257, 258, 1000):
+            progs.append(([nat(n), nat(x), P('LSL')], [('nat',)]))
+            progs.append(([nat(n), nat(x), P('LSR')], [('nat',)]))
+    return [(code, st, gen_env(rng)) for code, st in progs]
 
 
 def instrs_in(code):
